@@ -39,12 +39,18 @@ FAMILIES = ["lasso", "lasso_positive", "enet", "enet_positive", "logreg_l1", "sv
 
 
 def plan(tier, seed):
-    return [dict(name=f, family=f, reps=REPS[tier]) for f in FAMILIES]
+    # the primal-dual families are slow (large budgets): cut them into chunks so that all cores are used
+    out = []
+    for f in FAMILIES:
+        chunk = 15 if f in ("quantile", "sqrtlasso") else REPS[tier]
+        for r0 in range(0, REPS[tier], chunk):
+            out.append(dict(name="%s@%d" % (f, r0) if r0 else f, family=f, rep0=r0, reps=min(chunk, REPS[tier] - r0)))
+    return out
 
 
 def run_shard(spec, emit):
     fam, seed = spec["family"], spec["seed"]
-    for rep in range(spec["reps"]):
+    for rep in range(spec.get("rep0", 0), spec.get("rep0", 0) + spec["reps"]):
         cid = "%s/r%d" % (fam, rep)
         if not want(spec, cid):
             continue
